@@ -28,3 +28,7 @@ Definition SecureWrite := secure_write.
 Definition RenderAttributes := render_attributes html_escape_table.
 Definition IsDangerousURL := is_dangerous_url.
 Definition UrlValue := url_value html_escape_table punct_table entities url_escape_table utf8len_table.
+
+Require Import GM.model.Reader GM.model.Html GM.model.TableX.
+Definition TableTransform := transform space_table.
+Definition ParseDelimiter := parse_delimiter space_table.
